@@ -116,27 +116,10 @@ theorem GoodS.normalize_eval {d : List (DomVar (Ext K))} {e e' : Exp (Ext K)} (h
     (hn : normalizeExp e = some e') (ρ : String → K) (hd : DomSat ρ d) : eval ρ e' = eval ρ e :=
   normalize_eval_eq_nc hn (h.nc ρ hd) h.fin
 
-/-- RESIDUAL clause (finding 4, `try_normalize_logic_constraint`): when a comparison of a logic value with a
-literal is decided from the literal alone — verdict `Tautology` or `Contradiction` — rooc does not lower the
-logic value, so nothing is learnt about its definedness from a successful compilation; for exactly these
-constraints the two sides are required to be defined on the domains.  Everywhere else definedness is proved. -/
-def VerdictDef (d0 : List (DomVar (Ext K))) (c : Constraint (Ext K)) : Prop :=
-  c.isAssert = false → ∀ l' r' : Exp (Ext K), normalizeExp c.lhs = some l' → normalizeExp c.rhs = some r' →
-    (∃ d : List (DomVar (Ext K)), tryNormalize d l' c.cmp r' = some .tautology ∨
-      tryNormalize d l' c.cmp r' = some .contradiction) →
-    DefOn d0 c.lhs ∧ DefOn d0 c.rhs
-
-theorem VerdictDef.ofDefOn {d0 : List (DomVar (Ext K))} {c : Constraint (Ext K)} (hl : DefOn d0 c.lhs)
-    (hr : DefOn d0 c.rhs) : VerdictDef d0 c := fun _ _ _ _ _ _ => ⟨hl, hr⟩
-
-theorem VerdictDef.ofAssert {d0 : List (DomVar (Ext K))} {c : Constraint (Ext K)} (h : c.isAssert = true) :
-    VerdictDef d0 c := fun h' => by rw [h] at h'; cases h'
-
 /-- a source constraint: both sides satisfy the static contract over the initial domain. -/
 structure SrcD (d0 : List (DomVar (Ext K))) (c : Constraint (Ext K)) : Prop where
   lhs : GoodS d0 c.lhs
   rhs : GoodS d0 c.rhs
-  verdict : VerdictDef d0 c
 
 /-! ### the loop invariant -/
 
